@@ -45,13 +45,13 @@ PROPS['C12'] = dict(
     rule='Every rank generates the same global SPD M-matrix (G1 model sub-family: 5/9-point 2-D and 7-point 3-D variable-coefficient diffusion, contrast <= 10, anisotropy >= 0.1; G2: geometric or Erdos-Renyi graph Laplacians, average degree 5-8, positive shift on every vertex; 300 <= n <= 900 quick / 1500 thorough; the generator output is validated to be symmetric, diagonally dominant with non-positive off-diagonals and lambda_min > 0) '
          'and keeps the rows of a random contiguous partition (balanced / random cuts / forced empty ranks / everything on one rank). '
          'solve: cell k of the 576-cell cross product {aggregation, smoothed_aggregation} x 9 relaxations x 8 Krylov solvers x {skyline_lu, eigen_splu} x {no repartition, merge} is (offset(ranks, seed) + 115 k) mod 576, tol 1e-8, maxiter 300 (1000 Richardson); 20 % of the calls are budget-limited (maxiter 3-9, no convergence clause), 20 % start from x0 != 0, 25 % of the eligible solvers use left preconditioning; over_interp in {1, 1.25, 1.5}. '
-         'Convergence clause: absolute for the 7 Krylov methods; for Richardson (a stationary iteration, convergent iff rho(I-BA) < 1, which already fails on one rank for aggregation + damped_jacobi on a G2 graph) it is differential: the distributed run must converge whenever the same configuration run by rank 0 alone (MPI_COMM_SELF) converges. '
+         'Convergence clause: res < tol within the budget for all 8 solvers, as the property states it; for Richardson the same configuration is additionally run by rank 0 alone (MPI_COMM_SELF) and the outcome is attached to the failure detail (single_rank_reference), because plain aggregation with over-interpolation is not a convergent stationary iteration on every G2 graph even on one rank. '
          'pmis/direct/block/sdd/bp: seeded cases as described in the harness headers. A solve case is non-trivial when the hierarchy has >= 2 levels and the solve returned; a pmis case when it has a non-isolated unknown; distinct = distinct (sub-check, descriptor) hash.',
     # oracle history: (1) 'non-finite:*' as an unconditional failure was replaced by "reported and true residual must be non-finite together" plus the
-    # convergence clause -- a diverging Richardson iteration overflows legitimately; (2) the absolute convergence clause for Richardson was replaced by the
-    # differential one above after it fired identically on 1, 2, 3, 4 and 8 ranks (seed 2, solve idx 26 of the 8-rank sequence: res 2.4e47 after 1000 its on
-    # every rank count, bit-identical) -- not a property of the distributed code; (3) over_interp = 1.75 / 2 removed from the generator (coarse correction overshoots).
-    min_nontrivial=dict(quick=120, thorough=1500),
+    # convergence clause (a diverging Richardson iteration overflows; that is truthful); (2) a differential convergence clause for Richardson (only when the
+    # single-rank run converges) was tried and withdrawn: the property states convergence for every combination, so the clause is absolute and the single-rank
+    # outcome is reported in the failure detail; (3) over_interp = 1.75 / 2 removed from the generator (the coarse correction of a stationary iteration overshoots).
+    min_nontrivial=dict(quick=400, thorough=1500),
     require_obs=dict(quick=['solves', 'solves_with_empty_ranks', 'solves_with_repartition', 'galerkin_entries_checked', 'partition_levels_checked', 'nullspace_entries_checked', 'direct_solves', 'block_solves', 'sdd_solves', 'bp_solves'],
                      thorough=['solves', 'solves_with_empty_ranks', 'solves_with_repartition', 'galerkin_entries_checked', 'partition_levels_checked', 'nullspace_entries_checked', 'direct_solves', 'block_solves', 'sdd_solves', 'bp_solves']),
     assumptions=COMMON_ASSUME + ['Open MPI 4.1.4 on one node, oversubscribed; message arrival orders are those of this runtime diversified by rank-seeded delays before every ghost exchange',
